@@ -30,6 +30,7 @@ type stackCfg struct {
 	pRecvErr int
 	idleAt   [2]int        // the writer of side x pauses before this write (-1: never) ...
 	idle     time.Duration // ... for this long: keepalive pings (5 s / 7 s) go out on the idle connection
+	ws       bool          // the client uses the WebSocket transport (JSON text frames, base64 payloads) instead of gRPC
 	plain    bool          // plain connKit (no Noise): ClientConn / ServerConn used directly
 	realTime bool          // outside the bubble (stream errors make the code sleep while holding a mutex,
 	// which the fake clock of synctest cannot get past)
@@ -89,6 +90,12 @@ func stackBody(r *rng, cfg stackCfg, marker []byte, relay *fakeRelay, resp *stac
 			}
 			return "deliver"
 		}
+		wsHost := ""
+		if cfg.ws {
+			var stop func()
+			wsHost, stop = relay.serveWS()
+			defer stop()
+		}
 		entropy := r.bytes(14)
 		auth := append([]byte("macaroon:"), marker...)
 		cdC := mailbox.NewConnData(keyECDH(privFromRng(r)), nil, entropy, nil, nil, nil)
@@ -116,7 +123,13 @@ func stackBody(r *rng, cfg stackCfg, marker []byte, relay *fakeRelay, resp *stac
 		}()
 		go func() {
 			defer wg.Done()
-			cc, err := mailbox.NewClientConn(ctx, sid, "relay", relay, btclog.Disabled, func(mailbox.ClientStatus) {})
+			var cc *mailbox.ClientConn
+			var err error
+			if cfg.ws {
+				cc, err = mailbox.NewClientConn(ctx, sid, wsHost, nil, btclog.Disabled, func(mailbox.ClientStatus) {})
+			} else {
+				cc, err = mailbox.NewClientConn(ctx, sid, "relay", relay, btclog.Disabled, func(mailbox.ClientStatus) {})
+			}
 			if err != nil {
 				res.hsErr[0] = err
 				return
@@ -313,6 +326,9 @@ func TestGenC05(t *testing.T) {
 		if cfg.idle > 0 {
 			q.stat("cases_with_idle_period", 1)
 		}
+		if cfg.ws {
+			q.stat("cases_websocket_client", 1)
+		}
 		for x := 0; x < 2; x++ {
 			y := 1 - x
 			okp := len(res.read[y]) <= len(res.written[x]) && bytes.Equal(res.read[y], res.written[x][:len(res.read[y])])
@@ -395,6 +411,9 @@ func TestGenC05(t *testing.T) {
 		pan    string
 	}
 	m := scale(8, 48)
+	nws := scale(3, 12) // the last nws cases: WebSocket client transport over a fault-free relay, large records both ways
+	m += nws
+	mailbox.VerifSetAddrFormat("ws://%s%s?method=POST")
 	outs := make([]outc, m)
 	var wg sync.WaitGroup
 	for k := 0; k < m; k++ {
@@ -404,6 +423,13 @@ func TestGenC05(t *testing.T) {
 			defer wg.Done()
 			rr := r.sub(100000 + k)
 			cfg, class := mkCfg(100000+k, rr, true)
+			if k >= m-nws {
+				cfg.ws, cfg.plain = true, false
+				cfg.faultN, cfg.pDrop, cfg.pSendErr, cfg.pRecvErr = 0, 0, 0, 0
+				class = "clean"
+				cfg.writes[1] = append([]int{rr.pick([]int{49000, 50000, 65535}), 65535}, cfg.writes[1]...)
+				cfg.writes[0] = append([]int{65535}, cfg.writes[0]...)
+			}
 			marker := rr.bytes(16)
 			res, relay, leaked, pan := runStack(t, rr, cfg, marker)
 			outs[k] = outc{cfg, class, marker, res, relay, leaked, pan}
